@@ -95,12 +95,78 @@ def enabled_stages(path):
 MUTATORS_ALL = {"update", "add", "discard", "remove", "difference_update", "intersection_update", "symmetric_difference_update", "clear", "pop", "__ior__", "__iand__", "__isub__", "__ixor__"}
 
 
+def _stage_field_invariant(ctx):
+    """Combinations of present / absent stage objects the constructor can produce ({field: bool}), or None when a stage field is also
+    written outside the constructor (then there is no invariant to rely on)."""
+    cache = ctx.__dict__.setdefault("_stage_inv", {})
+    if "v" in cache:
+        return cache["v"]
+    p, A = ctx.p, ctx.A
+    f_fa = p.find_function("FileAnonymizer.__init__")
+    fields = [f_ for fs in STAGE_FIELDS.values() for f_ in fs]
+    out = None
+    ok = True
+    for f in p.all_functions():
+        if f is f_fa or f.qualname in ctx.helpers:
+            continue
+        for e, ls, path in A.paths(f).all_effects():
+            if e.kind == "store_attr" and e.b in fields and (f.cls is f_fa.cls):
+                ok = False
+    if ok:
+        out = []
+        for path in A.paths(f_fa).paths:
+            if path.kind == "raise" or not path.feasible():
+                continue
+            combo = {}
+            for e, ls in path.stores():
+                if e.kind == "store_attr" and e.a == SELF and e.b in fields:
+                    combo[e.b] = e.c != ("const", None)
+            if set(combo) == set(fields) and combo not in out:
+                out.append(combo)
+        if not out:
+            out = None
+    cache["v"] = out
+    return out
+
+
+def _eval_stage_atom(t, combo):
+    """Truth of a condition over the stage fields under one combination of present objects; None when it mentions anything else."""
+    if t[0] == "compare" and len(t[2]) == 2 and t[2][1] == ("const", None) and t[2][0][0] == "attr" and t[2][0][1] == SELF and t[2][0][2] in combo:
+        if t[1] == ("is",):
+            return not combo[t[2][0][2]]
+        if t[1] == ("is not",):
+            return combo[t[2][0][2]]
+        return None
+    if t[0] == "attr" and t[1] == SELF and t[2] in combo:
+        return combo[t[2]]  # truthiness of a stage object (package instances are truthy; {} for the lookup is not: left undecided)
+    if t[0] == "unop" and t[1] == "not":
+        v = _eval_stage_atom(t[2], combo)
+        return None if v is None else not v
+    if t[0] == "boolop":
+        vs = [_eval_stage_atom(x, combo) for x in t[2]]
+        if t[1] == "and":
+            return False if any(v is False for v in vs) else (True if all(v is True for v in vs) else None)
+        return True if any(v is True for v in vs) else (False if all(v is False for v in vs) else None)
+    return None
+
+
 def stage_guard_rules(rep, cl, io, li, f_io):
     """Each stage runs exactly when its own object is present (objects created under the same option count as one)."""
+    joint = _stage_field_invariant(io.ctx)
     for bp in li.body_paths:
         if not bp.feasible() or bp.result is not None:
             continue
         on = enabled_stages(bp)
+        if joint is not None:
+            # the combinations of stage objects the constructor can produce that agree with every decision taken on this path
+            cons = [combo for combo in joint if all(_eval_stage_atom(t, combo) in (None, pol) for t, pol in bp.atoms())]
+            if not cons:
+                continue  # excluded by the class invariant (e.g. patterns present without the lookup)
+            on = dict(on)
+            for f_ in cons[0]:
+                vs = {combo[f_] for combo in cons}
+                if len(vs) == 1 and on.get(f_) is None and any(f_ in show(t) for t, pol in bp.atoms()):
+                    on[f_] = next(iter(vs))  # decided through a compound test (`a is not None or b is not None`) plus the invariant
         called = {}
         for e in bp.effects:
             if e.kind == "call":
